@@ -15,6 +15,15 @@ func MapKeys[K comparable, V any](m map[K]V) []K {
 		keys = append(keys, k)
 	}
 	sort.Slice(keys, func(i, j int) bool { return keyLess(keys[i], keys[j]) })
+	if Active() && len(keys) >= 2 && len(keys) <= MaxPermKeys {
+		// inside an execution the iteration order is a decision of the explorer
+		perm := nthPerm(len(keys), Choose(factorial(len(keys)), "maporder"))
+		out := make([]K, len(keys))
+		for i, p := range perm {
+			out[i] = keys[p]
+		}
+		return out
+	}
 	if PermHook != nil {
 		perm := PermHook(len(keys))
 		if perm != nil {
@@ -45,4 +54,48 @@ func keyLess(a, b any) bool {
 		return va.Float() < vb.Float()
 	}
 	return fmt.Sprintf("%#v", a) < fmt.Sprintf("%#v", b)
+}
+
+// MaxPermKeys bounds the size of maps whose iteration order is explored
+// exhaustively inside an execution (larger maps iterate in sorted order).
+var MaxPermKeys = 3
+
+func factorial(n int) int {
+	f := 1
+	for i := 2; i <= n; i++ {
+		f *= i
+	}
+	return f
+}
+
+// nthPerm returns the k-th permutation of 0..n-1 in lexicographic order.
+func nthPerm(n, k int) []int {
+	avail := make([]int, n)
+	for i := range avail {
+		avail[i] = i
+	}
+	out := make([]int, 0, n)
+	for i := n; i >= 1; i-- {
+		f := factorial(i - 1)
+		j := k / f
+		k %= f
+		out = append(out, avail[j])
+		avail = append(avail[:j], avail[j+1:]...)
+	}
+	return out
+}
+
+// Choose is a data-nondeterminism point: the explorer picks a value in
+// 0..n-1. It touches no shared object (independent of every other thread).
+func Choose(n int, label string) int {
+	if n <= 1 {
+		return 0
+	}
+	t := enter()
+	obj := &object{id: -1000 - t.id, name: label}
+	o := &op{arms: make([]arm, n)}
+	for i := range o.arms {
+		o.arms[i] = arm{kind: aSimple, obj: obj, label: fmt.Sprintf("choose%d/%d", i, n)}
+	}
+	return t.do(o).arm
 }
